@@ -15,7 +15,7 @@ fn same_handle(b: &BytesMut, g: &MGhost, data0: *mut Shared) -> bool {
     b.ptr.as_ptr() as usize == g.base as usize + g.off && b.len == g.len && b.cap == g.cap && b.data == data0
 }
 
-// @ob props=C04,C08,C13,C16,C02 tier=quick kind=Kbounded bound="allocation size 8; offset/len/additional fully symbolic (usize)" fns=BytesMut::try_reclaim,BytesMut::reserve_inner
+// @ob props=C04,C08,C13,C16,C02,C18 tier=quick kind=Kbounded bound="allocation size 8; offset/len/additional fully symbolic (usize)" fns=BytesMut::try_reclaim,BytesMut::reserve_inner
 #[kani::proof]
 fn kx_mvec_try_reclaim() {
     let (base, vcap) = alloc_fixed(8);
@@ -37,12 +37,15 @@ fn kx_mvec_try_reclaim() {
     }
     // sole empty owner can always take the whole allocation back (C08 / C18 "in particular")
     if g.len == 0 && n <= g.vcap { assert!(r); }
+    // the exact decision lemmas/recycle.rs reads (`reserve_step`): room behind the view, or the
+    // whole allocation is large enough and the bytes can be moved to the front without overlap
+    assert!(r == (n <= g.cap - g.len || (g.cap - g.len + g.off >= n && g.off >= g.len)));
     kani::cover!(r && g.off > 0 && n > g.cap - g.len, "reclaimed by moving to the front");
     kani::cover!(!r);
     drop(b);
 }
 
-// @ob props=C04,C08,C13,C16,C02 tier=quick kind=Kbounded bound="allocation size 8; offset/len/cap/additional fully symbolic (usize)" fns=BytesMut::try_reclaim,BytesMut::reserve_inner,Shared::is_unique
+// @ob props=C04,C08,C13,C16,C02,C18 tier=quick kind=Kbounded bound="allocation size 8; offset/len/cap/additional fully symbolic (usize)" fns=BytesMut::try_reclaim,BytesMut::reserve_inner,Shared::is_unique
 #[kani::proof]
 fn kx_marc_unique_try_reclaim() {
     let (base, vcap) = alloc_fixed(8);
@@ -62,6 +65,12 @@ fn kx_marc_unique_try_reclaim() {
         assert!(same_handle(&b, &g, data0) && block_intact(&g) && count(&g) == 1);
     }
     if g.len == 0 && n <= g.vcap { assert!(r); }
+    // the exact decision lemmas/recycle.rs reads (`reserve_step`)
+    let want = g.len.checked_add(n);
+    let expect = n <= g.cap - g.len
+        || match want { Some(nc) => g.vcap - g.off >= nc || (g.vcap >= nc && g.off >= g.len), None => false };
+    assert!(r == expect);
+    kani::cover!(r && g.off == g.len && g.len > 0 && b.ptr.as_ptr() as usize == g.base as usize, "offset == len reclaims by moving");
     kani::cover!(r && n > g.cap - g.len && b.ptr.as_ptr() as usize == g.base as usize && g.off > 0, "reclaimed by moving to the front");
     kani::cover!(r && n > g.cap - g.len && b.ptr.as_ptr() as usize != g.base as usize, "reclaimed in place");
     kani::cover!(!r);
@@ -83,7 +92,7 @@ fn kx_marc_shared_try_reclaim() {
     core::mem::forget(b);
 }
 
-// @ob props=C04,C01,C02,C16 tier=quick kind=Kbounded bound="allocation size 8; additional <= 24" fns=BytesMut::reserve,BytesMut::reserve_inner,rebuild_vec
+// @ob props=C04,C01,C02,C16,C18 tier=quick kind=Kbounded bound="allocation size 8; additional <= 24" fns=BytesMut::reserve,BytesMut::reserve_inner,rebuild_vec
 #[kani::proof]
 fn kx_mvec_reserve() {
     let (base, vcap) = alloc_fixed(8);
@@ -95,11 +104,16 @@ fn kx_mvec_reserve() {
     assert!(b.cap - b.len >= n && b.len == g.len);
     if g.len > 0 { assert!(b[i] == x); }
     assert!(b.kind() == KIND_VEC);
+    // no allocation when the request fits behind the view or after moving to the front (C18)
+    if n <= g.cap - g.len || (g.cap - g.len + g.off >= n && g.off >= g.len) {
+        let off2 = (b.data as usize) >> VEC_POS_OFFSET;
+        assert!(b.ptr.as_ptr() as usize - off2 == g.base as usize);
+    }
     kani::cover!(b.ptr.as_ptr() as usize != g.base as usize + g.off, "moved or reallocated");
     drop(b);
 }
 
-// @ob props=C04,C01,C02,C16 tier=quick kind=Kbounded bound="allocation size 8; additional <= 24" fns=BytesMut::reserve,BytesMut::reserve_inner
+// @ob props=C04,C01,C02,C16,C18 tier=quick kind=Kbounded bound="allocation size 8; additional <= 24" fns=BytesMut::reserve,BytesMut::reserve_inner
 #[kani::proof]
 fn kx_marc_unique_reserve() {
     let (base, vcap) = alloc_fixed(8);
@@ -116,11 +130,19 @@ fn kx_marc_unique_reserve() {
     let vb = sh.vec.as_ptr() as usize;
     let p2 = b.ptr.as_ptr() as usize;
     assert!(p2 >= vb && p2 - vb <= sh.vec.capacity() && b.cap <= sh.vec.capacity() - (p2 - vb));
+    // C18: no allocation when the request fits behind the view or after moving to the front;
+    // an allocating reserve at least doubles the allocation (and covers offset + len + n)
+    let nc = g.len + n;
+    if n <= g.cap - g.len || g.vcap - g.off >= nc || (g.vcap >= nc && g.off >= g.len) {
+        assert!(vb == g.base as usize && sh.vec.capacity() == g.vcap);
+    } else {
+        assert!(vb != g.base as usize && sh.vec.capacity() >= 2 * g.vcap && sh.vec.capacity() >= g.off + nc);
+    }
     kani::cover!(vb != g.base as usize, "reallocated");
     drop(b);
 }
 
-// @ob props=C04,C01,C02,C03 tier=quick kind=Kbounded bound="allocation size 8; additional <= 24" fns=BytesMut::reserve,BytesMut::reserve_inner,release_shared
+// @ob props=C04,C01,C02,C03,C18 tier=quick kind=Kbounded bound="allocation size 8; additional <= 24" fns=BytesMut::reserve,BytesMut::reserve_inner,release_shared
 #[kani::proof]
 fn kx_marc_shared_reserve() {
     let (base, vcap) = alloc_fixed(8);
